@@ -38,6 +38,9 @@ Qed.
 
 Definition unambiguous (line : str) : Prop := forall p q, claims p line -> claims q line -> p = q.
 
+Lemma pname_eq_dec (p q : pname) : {p = q} + {p <> q}.
+Proof. decide equality. Qed.
+
 Theorem parse_line_order_indep o1 o2 line :
   (forall p, In p o1 <-> In p o2) -> unambiguous line -> parse_line o1 line = parse_line o2 line.
 Proof.
@@ -49,15 +52,141 @@ Proof.
   - rewrite !first_match_none; auto. intros q Hq. apply Hnone. apply Hset. auto.
 Qed.
 
-(* the directive patterns ARE ambiguous: IncludeRegex is not anchored, so a comment (or a prefix
-   line) that mentions an include is claimed by two patterns and the result depends on the order
-   of the map iteration (known finding C03-ambiguous-line) *)
-Example classify_unique_refuted :
-  exists line, claims PComment line /\ claims PInclude line /\
-               parse_line [PComment; PInclude] line <> parse_line [PInclude; PComment] line.
+(* ---------- the directive patterns are pairwise disjoint ---------- *)
+(* (since IncludeRegex is anchored, fix: 597d59c; before, a comment mentioning an include was
+   claimed by two patterns) *)
+Lemma lit_some p s r : lit p s = Some r -> s = p ++ r.
 Proof.
-  exists $"##! note ##!> include inc". repeat split; try (vm_compute; discriminate).
+  unfold lit. destruct (prefixb p s) eqn:E; [|discriminate]. intro H. injection H as <-.
+  apply prefixb_true_iff in E as [r ->]. now rewrite skipn_app_exact.
 Qed.
+
+(* the three characters ##! and the one after them *)
+Definition marker4 (c : N) (s : str) : Prop := exists r, s = 35 :: 35 :: 33 :: c :: r.
+
+Lemma marker_value_head c s v : m_marker_value (35 :: 35 :: 33 :: [c]) s = Some v -> marker4 c s.
+Proof.
+  unfold m_marker_value. destruct (lit _ s) as [r|] eqn:E; [|discriminate]. intros _.
+  exists r. now apply lit_some in E.
+Qed.
+
+Lemma skip_ws_nonspace c r : sp c = false -> skip_ws (c :: r) = c :: r.
+Proof. intro H. unfold skip_ws. cbn [drop_while]. now rewrite H. Qed.
+
+(* the keyword of a ##!> directive: the text after ##!> and optional white space *)
+Definition directive_kw (kw : str) (s : str) (rest : str) : Prop :=
+  exists s1, s = $"##!>" ++ s1 /\ skip_ws s1 = kw ++ rest.
+
+Lemma include_kw s r : include_here s = Some r -> exists c rest, directive_kw $"include" s (c :: rest) /\ sp c = true.
+Proof.
+  unfold include_here. destruct (lit $"##!>" s) as [s1|] eqn:E1; [|discriminate].
+  destruct (lit $"include" (skip_ws s1)) as [s2|] eqn:E2; [|discriminate].
+  destruct (Nat.eqb (length (skip_ws s2)) (length s2)) eqn:El; [discriminate|]. intros _.
+  destruct s2 as [|c s3]; [discriminate|]. exists c, s3. split.
+  - exists s1. split; [now apply lit_some|now apply lit_some].
+  - unfold skip_ws in El. cbn [drop_while] in El. destruct (sp c) eqn:Ec; auto.
+    rewrite Nat.eqb_refl in El. discriminate.
+Qed.
+
+Lemma include_except_kw s r : m_include_except s = Some r -> exists rest, directive_kw $"include-except" s rest.
+Proof.
+  unfold m_include_except. destruct (lit $"##!>" s) as [s1|] eqn:E1; [|discriminate].
+  destruct (lit $"include-except" (skip_ws s1)) as [s2|] eqn:E2; [|discriminate]. intros _.
+  exists s2, s1. split; now apply lit_some.
+Qed.
+
+Lemma definition_kw s r : m_definition s = Some r -> exists rest, directive_kw $"define" s rest.
+Proof.
+  unfold m_definition. destruct (lit $"##!>" s) as [s1|] eqn:E1; [|discriminate].
+  destruct (lit $"define" (skip_ws s1)) as [s2|] eqn:E2; [|discriminate]. intros _.
+  exists s2, s1. split; now apply lit_some.
+Qed.
+
+Lemma directive_marker4 kw s rest : directive_kw kw s rest -> marker4 62 s.
+Proof. intros (s1 & -> & _). exists s1. reflexivity. Qed.
+
+Lemma comment_head s : m_comment s = true ->
+  forall c, marker4 c s -> c <> 94 /\ c <> 36 /\ c <> 43 /\ c <> 62 /\ c <> 60 /\ c <> 61.
+Proof.
+  intros H c [r ->]. unfold m_comment in H.
+  rewrite skip_ws_nonspace in H by reflexivity.
+  change (lit $"##!" (35 :: 35 :: 33 :: c :: r)) with (Some (c :: r)) in H.
+  cbn beta iota in H. apply negb_true_iff in H. rewrite !orb_false_iff in H.
+  destruct H as (((((H1 & H2) & H3) & H4) & H5) & H6).
+  apply N.eqb_neq in H1, H2, H3, H4, H5, H6. repeat split; assumption.
+Qed.
+
+Lemma marker4_inj c d s : marker4 c s -> marker4 d s -> c = d.
+Proof. intros [r ->] [r' H]. congruence. Qed.
+
+Lemma directive_kw_inj kw1 kw2 s r1 r2 :
+  directive_kw kw1 s r1 -> directive_kw kw2 s r2 -> kw1 ++ r1 = kw2 ++ r2.
+Proof.
+  intros (s1 & E1 & K1) (s2 & E2 & K2). rewrite E1 in E2. apply app_inv_head in E2. subst s2. congruence.
+Qed.
+
+(* what a claim of each pattern says about the head of the line *)
+Inductive head_kind := HInclude | HExcept | HDefine | HComment | HFlags | HPrefix | HSuffix.
+Definition kind_of (p : pname) : head_kind :=
+  match p with
+  | PInclude => HInclude | PIncludeExcept => HExcept | PDefinition => HDefine | PComment => HComment
+  | PFlags => HFlags | PPrefix => HPrefix | PSuffix => HSuffix
+  end.
+
+Theorem classify_unique line : unambiguous line.
+Proof.
+  assert (Hinc : claims PInclude line -> exists c rest, directive_kw $"include" line (c :: rest) /\ sp c = true).
+  { unfold claims. cbn [try_pattern]. unfold m_include. destruct (include_here line) eqn:E; [|congruence].
+    intros _. eapply include_kw; eauto. }
+  assert (Hexc : claims PIncludeExcept line -> exists rest, directive_kw $"include-except" line rest).
+  { unfold claims. cbn [try_pattern]. destruct (m_include_except line) as [[[a b] c]|] eqn:E; [|congruence].
+    intros _. eapply include_except_kw; eauto. }
+  assert (Hdef : claims PDefinition line -> exists rest, directive_kw $"define" line rest).
+  { unfold claims. cbn [try_pattern]. destruct (m_definition line) as [[[a b] c]|] eqn:E; [|congruence].
+    intros _. eapply definition_kw; eauto. }
+  assert (Hcom : claims PComment line -> m_comment line = true).
+  { unfold claims. cbn [try_pattern]. destruct (m_comment line); congruence. }
+  assert (Hfl : claims PFlags line -> marker4 43 line).
+  { unfold claims. cbn [try_pattern]. destruct (m_flags line) eqn:E; [|congruence]. intros _. eapply marker_value_head; eauto. }
+  assert (Hpr : claims PPrefix line -> marker4 94 line).
+  { unfold claims. cbn [try_pattern]. destruct (m_prefix line) eqn:E; [|congruence]. intros _. eapply marker_value_head; eauto. }
+  assert (Hsu : claims PSuffix line -> marker4 36 line).
+  { unfold claims. cbn [try_pattern]. destruct (m_suffix line) eqn:E; [|congruence]. intros _. eapply marker_value_head; eauto. }
+  (* the character after ##! of every claimant *)
+  assert (M : forall p, claims p line -> p <> PComment ->
+              marker4 (match p with PFlags => 43 | PPrefix => 94 | PSuffix => 36 | _ => 62 end) line).
+  { intros p Hp Hne. destruct p; try congruence; auto.
+    - destruct (Hinc Hp) as (c & rest & K & _). eapply directive_marker4; eauto.
+    - destruct (Hexc Hp) as (rest & K). eapply directive_marker4; eauto.
+    - destruct (Hdef Hp) as (rest & K). eapply directive_marker4; eauto. }
+  intros p q Hp Hq.
+  destruct (pname_eq_dec p q) as [|Hne]; [assumption|exfalso].
+  (* a comment excludes everything else *)
+  assert (NC : forall a b, claims a line -> claims b line -> a = PComment -> b <> PComment -> False).
+  { intros a b Ha Hb -> Hb'. pose proof (comment_head line (Hcom Ha) _ (M b Hb Hb')) as H.
+    destruct b; try congruence; cbn in H; intuition congruence. }
+  destruct (pname_eq_dec p PComment) as [Ep|Ep]; [eapply (NC p q); eauto; congruence|].
+  destruct (pname_eq_dec q PComment) as [Eq|Eq]; [eapply (NC q p); eauto; congruence|].
+  pose proof (marker4_inj _ _ _ (M p Hp Ep) (M q Hq Eq)) as E4.
+  destruct p, q; try congruence; try discriminate E4.
+  - destruct (Hinc Hp) as (c & rest & K1 & Hc). destruct (Hexc Hq) as (rest2 & K2).
+    pose proof (directive_kw_inj _ _ _ _ _ K1 K2) as E. cbn in E. injection E as E _. subst c. discriminate Hc.
+  - destruct (Hinc Hp) as (c & rest & K1 & Hc). destruct (Hdef Hq) as (rest2 & K2).
+    pose proof (directive_kw_inj _ _ _ _ _ K1 K2) as E. cbn in E. discriminate E.
+  - destruct (Hinc Hq) as (c & rest & K1 & Hc). destruct (Hexc Hp) as (rest2 & K2).
+    pose proof (directive_kw_inj _ _ _ _ _ K1 K2) as E. cbn in E. injection E as E _. subst c. discriminate Hc.
+  - destruct (Hexc Hp) as (rest & K1). destruct (Hdef Hq) as (rest2 & K2).
+    pose proof (directive_kw_inj _ _ _ _ _ K1 K2) as E. cbn in E. discriminate E.
+  - destruct (Hinc Hq) as (c & rest & K1 & Hc). destruct (Hdef Hp) as (rest2 & K2).
+    pose proof (directive_kw_inj _ _ _ _ _ K1 K2) as E. cbn in E. discriminate E.
+  - destruct (Hexc Hq) as (rest & K1). destruct (Hdef Hp) as (rest2 & K2).
+    pose proof (directive_kw_inj _ _ _ _ _ K1 K2) as E. cbn in E. discriminate E.
+Qed.
+
+(* hence the classification of EVERY line is independent of the iteration order of the pattern map *)
+Corollary parse_line_deterministic o1 o2 line :
+  (forall p, In p o1 <-> In p o2) -> parse_line o1 line = parse_line o2 line.
+Proof. intro H. apply parse_line_order_indep; [exact H|apply classify_unique]. Qed.
 
 (* ---------- replaceSuffixes ---------- *)
 Lemma apply_pairs_none ps e :
